@@ -164,6 +164,7 @@ func TestC13Paging(t *testing.T) {
 			plus := rapid.Bool().Draw(t, "plus")
 			mutate := rapid.IntRange(0, 2).Draw(t, "mutate") == 0
 			req := pageReq{Plus: plus, Count: pick(t, pageCounts, "count"), Dircount: pick(t, pageCounts, "dircount")}
+			lookupLater := !mutate && rapid.Bool().Draw(t, "lookuplater")
 			x.logf("enumerate /d with %+v, mutations between pages: %v (%d entries)", req, mutate, len(d.Children))
 			// incarnations present at the start
 			type inc struct {
@@ -204,8 +205,10 @@ func TestC13Paging(t *testing.T) {
 					if err := checkEntry(x, d, e, plus); err != nil {
 						fail("page %d (cookie %d): %v", pages, req.Cookie, err)
 					}
-					// the file id listed is that of the named object: LOOKUP of the name agrees
-					if e.Name != "." && e.Name != ".." {
+					// the file id listed is that of the named object: LOOKUP of the name agrees (in sessions without
+					// mutations half of the time only after the enumeration: a LOOKUP makes the server build its name
+					// cache of the directory, and an enumeration must also be right when it finds none)
+					if e.Name != "." && e.Name != ".." && !lookupLater {
 						lr := api.NFSPROC3_LOOKUP(nt.LOOKUP3args{What: nt.Diropargs3{Dir: fh, Name: nt.Filename3(e.Name)}})
 						if lr.Status != nt.NFS3_OK || uint64(lr.Resok.Obj_attributes.Attributes.Fileid) != e.Fileid {
 							fail("page %d lists %q with file id %d, but LOOKUP of that name answers status %d, file id %d", pages, trunc(e.Name, 24), e.Fileid, lr.Status, lr.Resok.Obj_attributes.Attributes.Fileid)
@@ -253,6 +256,18 @@ func TestC13Paging(t *testing.T) {
 			}
 			if cut {
 				break
+			}
+			if lookupLater {
+				for _, e := range linear {
+					if e.Name == "." || e.Name == ".." {
+						continue
+					}
+					lr := api.NFSPROC3_LOOKUP(nt.LOOKUP3args{What: nt.Diropargs3{Dir: fh, Name: nt.Filename3(e.Name)}})
+					if lr.Status != nt.NFS3_OK || uint64(lr.Resok.Obj_attributes.Attributes.Fileid) != e.Fileid {
+						fail("the enumeration listed %q with file id %d, but LOOKUP of that name afterwards answers status %d, file id %d", trunc(e.Name, 24), e.Fileid, lr.Status, lr.Resok.Obj_attributes.Attributes.Fileid)
+					}
+				}
+				St.Class("session_cross_checked_with_lookup_only_afterwards")
 			}
 			for name, in := range start {
 				if !in.gone && in.seen != 1 {
